@@ -25,9 +25,9 @@ def _shape(p):
 def _build(ctx, p):
     s = _shape(p)
     if p["cls"] == "D":
-        net = nets.build_D(ctx, s, attrs=True)[0]
+        net = nets.build_D(ctx, s, attrs=True, str_labels=p.get("labels", False))[0]
     else:
-        net = nets.build_H(ctx, s, cls=CLS[p["cls"]], attrs=True)[0]
+        net = nets.build_H(ctx, s, cls=CLS[p["cls"]], attrs=True, str_labels=p.get("labels", False))[0]
     # nested mutable attribute values at all three levels
     w = ctx.label("nested")
     for n in net._node_attr:
@@ -150,6 +150,9 @@ def spec(tier, seed):
         for how in ("copy", "pickle", "ctor"):
             for s in sh[cls]:
                 units.append(("C07.equal", {"cls": cls, "shape": s, "how": how}))
+                if s[0] and s[1]:
+                    for lm in ("str", "tuple"):
+                        units.append(("C07.equal", {"cls": cls, "shape": s, "how": how, "labels": lm}))
             for s in (esh[cls] if how == "copy" or tier != "quick" else esh[cls][:2]):
                 for op in OPS[cls]:
                     if op in HEAVY[cls] and tier == "quick" and not op.endswith(("_2", "_5")):
@@ -162,7 +165,7 @@ def spec(tier, seed):
         "caps": {"paths": 100000, "wall": 600},
         "level": "model_checking",
         "bounds": {"shapes": {k: f"{len(v)} shapes (equality) / {len(esh[k])} (follow-up edit)" for k, v in sh.items()},
-                   "labels": "unbounded integers; attribute values symbolic; nested mutable attribute values at node, edge and network level",
+                   "labels": "unbounded integers, and (equality harness) a string / a tuple as first node label and first edge id; attribute values symbolic; nested mutable attribute values at node, edge and network level",
                    "derivations": ["copy()", "pickle round trip", "constructor of the same class"],
                    "follow-up": "one mutator call with symbolic arguments on either side; one in-place nested edit; one automatic addition on each side"},
         "assumptions": ["pickle is exercised on the real __getstate__/__setstate__; itertools.count itself is pickled only in the concrete replay (scount during exploration)",
